@@ -101,3 +101,5 @@ def rule_pattern(start, st, end, et, stdoff, dstoff, years):
     north = all(S[k] <= E[k] <= S[k + 1] for k in ys)
     south = all(E[k] <= S[k] <= E[k + 1] for k in ys)
     return north, south
+
+I32_MIN, I32_MAX = -2**31, 2**31 - 1
